@@ -529,6 +529,29 @@ theorem run_refines (nl : α) : ∀ (calls : List Call) (s : Reader α) (f : Fil
     simp only [Reader.run, File.run]
     rw [hs.1, run_refines nl cs _ _ hs.2]
 
+/-- conservation for one call: what it returns, followed by what is still pending, is what was pending -/
+theorem step_conserve (nl : α) (s : Reader α) (c : Call) :
+    (s.step nl c).1 ++ (s.step nl c).2.pending = s.pending := by
+  cases c with
+  | read n =>
+    simp only [Reader.step]
+    rw [read_out, read_pending, List.take_append_drop]
+  | readline =>
+    simp only [Reader.step]
+    rw [readline_out, readline_pending]
+    conv => lhs; lhs; rw [takeLine_prefix nl s.pending]
+    rw [List.take_append_drop]
+
+/-- conservation over any call sequence -/
+theorem run_conserve (nl : α) : ∀ (calls : List Call) (s : Reader α),
+    (Reader.run nl s calls).1.flatten ++ (Reader.run nl s calls).2.pending = s.pending
+  | [], _ => by simp [Reader.run]
+  | c :: cs, s => by
+    have h1 := step_conserve nl s c
+    have h2 := run_conserve nl cs (s.step nl c).2
+    simp only [Reader.run, List.flatten_cons, List.append_assoc]
+    rw [h2, h1]
+
 theorem step_proxyclose (nl : α) (s : Reader α) (c : Call) : (s.step nl c).2.proxyclose = s.proxyclose := by
   cases c with
   | read n => exact read_proxyclose n s
